@@ -389,6 +389,49 @@ def rule_full_dictionary(rep, repo, unit, loc):
                 instance="full dictionary/%s/%s" % (name, lbl))
 
 
+def rule_plain_activation_names(rep, repo, unit, loc):
+  """A configured activation_quantizer that is a plain activation NAME
+  ("relu", "tanh", "sigmoid" - the way to keep a float activation on a
+  layer that is converted) is what the converted layer carries, exactly as
+  a configured quantizer string is: the default conversion of activations
+  applies only where nothing is configured.  Every arm that reads the key,
+  with an entry by class and by layer name."""
+  n = 0
+  for plain in ("relu", "tanh", "sigmoid"):
+    cfg = qcfg()
+    for key, ent in cfg.items():
+      if not isinstance(ent, dict) or not ent or key in (
+          "QActivation", "d_optout", "act_optout", "QBatchNormalization"):
+        continue
+      ent["activation_quantizer"] = plain
+    for lyr in base_layers():
+      if lyr["class_name"] == "InputLayer":
+        continue
+      name = lyr["config"]["name"]
+      try:
+        jm, _, _ = run_mq(repo, [_copy.deepcopy(lyr)], _copy.deepcopy(cfg))
+      except PyRaise:
+        continue       # decided by R6
+      got = by_name(jm)[name]
+      ent = cfg.get(name, cfg.get(got["class_name"]))
+      if got["class_name"] == lyr["class_name"] or not isinstance(
+          ent, dict) or "activation_quantizer" not in ent or \
+          got["class_name"] in ("QActivation", "QBatchNormalization"):
+        continue
+      n += 1
+      rep.check(got["config"].get("activation") == plain, "R7", unit,
+                "configured-plain-activation-rewritten:" +
+                got["class_name"],
+                "layer %s: the entry configures activation_quantizer=%r "
+                "(a plain activation name) but the converted %s has "
+                "activation=%r" % (name, plain, got["class_name"],
+                                   got["config"].get("activation")),
+                loc=loc, instance="%s/activation_quantizer=%s" % (name,
+                                                                  plain),
+                observed=repr(got["config"].get("activation")))
+  return n
+
+
 # what the stock Keras layer the class replaces declares as its output shape
 def _stock_output_shape(name, shape, units):
   if name == "QDense":
@@ -566,6 +609,8 @@ def run(rep, repo, tier):
 
   rule_full_dictionary(rep, repo, unit, loc)
   rule_batchnorm_selection(rep, repo, unit, loc)
+  if rule_plain_activation_names(rep, repo, unit, loc) < 20:
+    raise AnalysisError("instance-count plain activation names")
 
   def expect(name, cls, **keys):
     l = converted.get(name)
